@@ -273,7 +273,7 @@ func BuildWorld(seed uint64, k Knobs) *World {
 	// a second native currency in circulation (VT: zero decimals, registered by every genesis): without holders
 	// every "amount in another registered currency" input dies for lack of funds before it reaches the code that
 	// should have refused it
-	vtFund := *balance.NewAmount(10000000)
+	vtFund := amt("100000000000000000000000000") // plenty: amounts meant as OLT base units must be affordable in it
 	for _, vk := range w.Validators {
 		addBal(vk.NodeKey.Addr, "VT", vtFund)
 	}
